@@ -39,18 +39,27 @@ def lin(e):
     return (e, 0)
 
 
+_SAME_LENGTH_VIEWS = ("as_bytes", "as_str", "as_mut_str", "as_bytes_mut")
+
+
 def _peel(e):
-    p = mir.peel(e)
-    while p is not e:
-        e = p
+    while True:
         p = mir.peel(e)
-    return e
+        while p is not e:
+            e = p
+            p = mir.peel(e)
+        # a byte / str view of a string has the string's length
+        if e[0] == "call" and last_seg(e[1]) in _SAME_LENGTH_VIEWS and len(e[2]) == 1:
+            e = e[2][0]
+            continue
+        return e
 
 
 class Constraints:
     def __init__(self):
         self.edges = {}     # (u, v) -> w   meaning  v <= u + w
         self.nodes = {ZERO}
+        self.neq = []       # ((tx, ox), (ty, oy)) meaning  tx + ox != ty + oy
 
     def add(self, x, y, k=0):
         """x <= y + k  with x, y = (term, offset)"""
@@ -92,6 +101,8 @@ class Constraints:
                     self.add(y, x, 0)
                 elif y[0] == ZERO and y[1] == 0 and x[0] != ZERO and _is_len_term(x[0]):
                     self.add((ZERO, 1), x, 0)
+                else:
+                    self.neq.append((x, y))
             elif op == "Ne":
                 if not val:
                     self.add(x, y, 0)
@@ -100,6 +111,8 @@ class Constraints:
                     # x != 0 for an unsigned x  ->  x >= 1
                     if y[0] == ZERO and y[1] == 0 and x[0] != ZERO and _is_len_term(x[0]):
                         self.add((ZERO, 1), x, 0)
+                    else:
+                        self.neq.append((x, y))
             return
         if a[0] == "call" and isinstance(val, bool):
             ls = last_seg(a[1])
@@ -121,6 +134,26 @@ class Constraints:
                 pass
 
     def close(self):
+        self._close()
+        # integers: x <= y and x != y  =>  x <= y - 1  (a few rounds are enough for the chains met here)
+        for _ in range(3):
+            changed = False
+            for x, y in self.neq:
+                for a, b in ((x, y), (y, x)):
+                    ta, oa = a
+                    tb, ob = b
+                    if ta == tb:
+                        continue
+                    w = self.d.get((tb, ta), INF)
+                    if w == ob - oa:       # a <= b exactly tight
+                        self.add(a, b, -1)
+                        changed = True
+            if not changed:
+                break
+            self._close()
+        return self
+
+    def _close(self):
         nodes = list(self.nodes)
         d = {}
         for u in nodes:
